@@ -20,17 +20,17 @@ type Anchors struct {
 	Iterator                  *types.Named
 
 	// fields (by *types.Var identity)
-	DBLock, DBSchemas, DBCache, DBAsyncw, DBCtx, DBCancel, DBRoot *types.Var
+	DBLock, DBSchemas, DBCache, DBAsyncw, DBCtx, DBCancel, DBRoot            *types.Var
 	SchObjectIndex, SchFields, SchExtension, SchCompress, SchCache, SchAsync *types.Var
-	SchDB, SchObject, SchTransformers                                       *types.Var
-	OIUuids, OIObjectIds, OICounter, OIFields                               *types.Var
-	FIIndex, FIObjectIds, FICast, FIConstraints, FIName, FINameSplit        *types.Var
-	IFValue, IFObjectId                                                     *types.Var
-	InnerMap                                                                *types.Var // objectMap.m
-	StoreMap                                                                *types.Var // objectStore.m
+	SchDB, SchObject, SchTransformers                                        *types.Var
+	OIUuids, OIObjectIds, OICounter, OIFields                                *types.Var
+	FIIndex, FIObjectIds, FICast, FIConstraints, FIName, FINameSplit         *types.Var
+	IFValue, IFObjectId                                                      *types.Var
+	InnerMap                                                                 *types.Var // objectMap.m
+	StoreMap                                                                 *types.Var // objectStore.m
 	SearchFields, SearchErr, SearchLimit, SearchReverse, SearchDB, SearchObj *types.Var
 
-	Sentinels map[*types.Var]string // error sentinel globals -> name
+	Sentinels  map[*types.Var]string // error sentinel globals -> name
 	SentByName map[string]*types.Var
 
 	SchemaFilename *types.Const
